@@ -28,6 +28,8 @@ def run(pid, tier):
         from .model import Ctx
         ctx = Ctx(fresh=(tier == "thorough"))
         ctx.tier = tier
+        from . import symeval
+        symeval.DEFAULT_CTX = ctx
         if tier == "thorough":
             # deeper small scopes (the evidence records them)
             from .rules import stringx, buildeval
